@@ -7,6 +7,16 @@ props = [json.loads(l) for l in open(os.path.join(VERIF, "properties.jsonl"))]
 TB = "TLC; the TLA+ modules under /verif/spec; the harness's observation code (interposed mmap/munmap/mprotect/__clear_cache, memory watch, child-process runner); Linux kernel behaviour"
 
 CLAIMED = {
+ "C01": ("model_checking", "MC_Geom: every placement (function incl. page-straddling entries, trampoline page, fake) of a scaled address space executed on the model; on the real library a lattice of placements (rel32 boundary +/-6, window extremes, low/high addresses, page offsets 4084..4095) + seeded random is installed in child processes, and TLC executes the recorded entry/trampoline bytes on X64.tla (64-bit arithmetic on byte sequences) and compares with the CPU's answer.", "5 C01",
+         "TLC model check of scaled geometry + trace validation of recorded machine code on an ISA model"),
+ "C05": ("model_checking", "panic at every enabled point of the lifecycle model (user code, fake rejecting/over-called and not caught, refused installation, mmap exhaustion, mprotect failure, verifier at exit) with NoAbort / Reusable / IdleClean / Restored as invariants; every behaviour replayed with real panics and injected OS faults in child processes, chained over consecutive lifetimes, followed by a fresh thread; traces validated by TLC (Trace_Api, Props={C05}).", "5 C05",
+         "TLC exhaustive model check + fault-injecting replay + trace validation"),
+ "C06": ("model_checking", "MC_Times: all interleavings of concurrent callers against the atomic counter; sequential behaviours replayed on real fake! fakes; concurrent rounds (up to 16 threads) recorded as CallStart/CallEnd and linearised by TLC (Trace_Times).", "5 C06",
+         "TLC exhaustive model check + replay + linearisability check of recorded concurrent traces by TLC"),
+ "C07": ("model_checking", "FreshCount as an action property of the lifecycle model over >=2 lifetimes evaluating the same site; behaviours replayed with the model's site mapped to one real fake! expansion site reused across lifetimes.", "5 C07",
+         "TLC model check + spec->impl replay over consecutive lifetimes"),
+ "C11": ("model_checking", "MC_Alloc: every target address, window occupancy and kernel answer in a scaled address space (InReach, NoLeftover, termination); real allocator driven through an interposed mmap policy over layouts incl. both window extremes and targets below 128 MiB; Mmap/Munmap traces validated by TLC with 64-bit byte arithmetic.", "5 C11",
+         "TLC exhaustive model check + policy-driven replay + trace validation"),
  "C02": ("model_checking", "Injectorpp.tla explored exhaustively by TLC (every install history, step order and exit path inside the bounds); every maximal API-level behaviour of the model is replayed on the real library and the recorded OS-level trace is validated by TLC against Trace_Api (Restored / LatestWins).", "5 C02",
          "TLC exhaustive model check + spec->impl replay + impl->spec trace validation"),
  "C03": ("model_checking", "OnlyNamed / write-set constraints checked in every state of the model; on the real library every write to watched memory and a byte diff of all r-x mappings are fed to TLC as Write/Diff events (Trace_Api, Props={C03}).", "5 C03",
